@@ -5,9 +5,13 @@
 package main
 
 import (
+	"context"
 	"fmt"
 	"math/rand"
+	"os"
+	"runtime/debug"
 	"sort"
+	"strconv"
 	"strings"
 	"sync"
 	"time"
@@ -15,8 +19,9 @@ import (
 	discovery "github.com/envoyproxy/go-control-plane/envoy/service/discovery/v3"
 	"google.golang.org/genproto/googleapis/rpc/status"
 
-	"istio.io/istio/pilot/pkg/model"
+	"istio.io/istio/pilot/pkg/xds"
 	v3 "istio.io/istio/pilot/pkg/xds/v3"
+	"istio.io/istio/pkg/util/sets"
 	xdsfake "istio.io/istio/pilot/test/xds"
 	"verifharness/internal/quiet"
 	"verifharness/internal/vh"
@@ -24,27 +29,44 @@ import (
 )
 
 func main() {
+	maybeProbe()
 	vh.Main(vh.Prop{
 		ID:    "C04",
 		Level: "exploration",
 		Rule: "Closed loop between the real DiscoveryServer (Stream / StreamDeltas on a stream shim) and a hostile client. Enumerated stratum: every request sequence up to length L " +
 			"(quick L=2, thorough L=3) over the per-type alphabet {names in {},{n1},{n1,n2},{nx}} x nonce {empty,current,stale,garbage} x error_detail {no,yes} plus a server push letter, " +
 			"for EDS, RDS (non-wildcard) and CDS, LDS, NDS (wildcard), on a bare stream and on a conformantly warmed stream, SotW and delta; random stratum: PRNG sequences of length 4-12 mixing types and pushes. " +
-			"After each stimulus a barrier request decides whether the server answered. Non-trivial: a sequence containing at least one must-respond and one must-be-silent stimulus; distinct by the sequence text.",
+			"After each stimulus a barrier request decides whether the server answered. Non-trivial: a sequence containing at least one must-respond and one must-be-silent stimulus; distinct by the sequence text. " +
+			"Extension strata (same construction, own case-name prefixes): ecds/ (sidecar, ECDS from EnvoyFilter EXTENSION_CONFIG patches and a WasmPlugin), sds/ (router on an authenticated stream, kubernetes:// secrets), " +
+			"amb/ (ztunnel node, delta only: istio.workload.Address with explicit subscribe/unsubscribe letters over {*,pod ip,service vip,node-local pod ip,unknown ip} in wildcard and on-demand mode, and istio.security.Authorization), " +
+			"grpc/ (Metadata.Generator=grpc, SotW, every type by name), api/ (Metadata.Generator=api, ServiceEntry kind as a wildcard type); forced and keyed push letters; thorough enumerates length 3 of the extension strata over the alphabet without the garbage nonce. " +
+			"conc/: a conformant auto-ACKing client runs a PRNG conversation while a pusher goroutine issues forced and keyed ConfigUpdates at PRNG points without any barrier; judged only on crash, bounded responses, silence within K ACK rounds once the control plane is idle, final record = last request, nonce uniqueness.",
 		Assumptions: []string{
 			"the executable protocol model is our reading of the xDS protocol as restated by the property (first request / added names / reconnect => respond; ACK, NACK, stale nonce => silent); anything else is unspecified and only counted towards the loop bound",
 			"requests and pushes of one connection are handled in order by one goroutine, so the barrier echo implies earlier responses were delivered (probed)",
 			"a recovered panic in the stream handler is reported as a crash: istiod installs no recover interceptor",
+			"generator-managed Address subscriptions: the generator adds names (uid / namespace/hostname form) to the record by itself, so the record clause compares the record restricted to the names the client can mention (network/ip form) and the Wildcard flag; switching between wildcard and named mode after the opening request, explicit names on a wildcard subscription, re-subscription of a name already on record and unsubscribe-only requests are unspecified",
+			"features.EnableAmbient is switched on in-process for the ambient server only (the flags derived from it at init keep their non-ambient defaults)",
 		},
 		Anchors:          []string{"pkg/xds/server.go", "pilot/pkg/xds/delta.go", "pilot/pkg/xds/ads.go"},
 		CrashIsViolation: true,
 		MinNontrivial:    func(t string) int { return map[string]int{"quick": 200, "thorough": 5000}[t] },
 		Batches:          func(t string) int { return map[string]int{"quick": 6, "thorough": 14}[t] },
-		Parallel:         func(t string) int { return map[string]int{"quick": 6, "thorough": 14}[t] },
+		Parallel:         parallel,
 		TimeoutSec:       func(t string) int { return map[string]int{"quick": 600, "thorough": 3000}[t] },
 		Exhaustive:       func(string) bool { return false },
 		Run:              run,
 	})
+}
+
+// parallel: children alive at once; XDSPROTO_PAR lowers it while developing next to other agents (the batch
+// partition, and with it every case, stays the same).
+func parallel(t string) int {
+	n := map[string]int{"quick": 6, "thorough": 14}[t]
+	if v, err := strconv.Atoi(os.Getenv("XDSPROTO_PAR")); err == nil && v > 0 && v < n {
+		n = v
+	}
+	return n
 }
 
 // ---------------------------------------------------------------------------------------
@@ -59,6 +81,14 @@ var typeURLs = map[string]string{
 }
 
 var wildcard = map[string]bool{"CDS": true, "LDS": true, "NDS": true}
+
+// managed: the generator keeps the record's names itself (Address); letters carry explicit subscribe /
+// unsubscribe lists. namedWildcard: a type the server treats as wildcard but this world's client requests
+// by name (proxyless gRPC LDS / CDS): an empty name list is not an unsubscribe.
+var (
+	managed       = map[string]bool{}
+	namedWildcard = map[string]bool{}
+)
 
 // existing resource names per non-wildcard type (from serverConfig) and one that does not exist
 var names = map[string][]string{
@@ -97,21 +127,37 @@ spec:
 
 // letter is one client stimulus.
 type letter struct {
-	Push  bool   // server-initiated forced push instead of a request
+	Push  bool   // server-initiated push instead of a request
+	Kind  string // push kind ("" = forced, the only one of the legacy strata)
 	Type  string // short type
 	Names int    // index into nameSets (non-wildcard types)
 	Nonce string // empty | current | stale | garbage
 	Err   bool   // error_detail present
+	// managed types (Address): indices into aNames
+	Sub, Unsub []int
 }
 
 var nameSets = [][]int{{}, {0}, {0, 1}, {3}} // indices into names[type]; 3 = nonexistent
 
 func (l letter) String() string {
 	if l.Push {
+		if l.Kind != "" {
+			return "push:" + l.Kind
+		}
 		return "push"
 	}
 	s := l.Type
-	if !wildcard[l.Type] {
+	switch {
+	case managed[l.Type]:
+		s += "("
+		for _, i := range l.Sub {
+			s += "+" + aShort[i]
+		}
+		for _, i := range l.Unsub {
+			s += "-" + aShort[i]
+		}
+		s += ")"
+	case !wildcard[l.Type]:
 		s += fmt.Sprint(nameSets[l.Names])
 	}
 	s += "/" + l.Nonce
@@ -141,12 +187,18 @@ type seqCase struct {
 	proto  string // sotw | delta
 	warmed bool
 	seq    []letter
+	// extension strata
+	world string // "" = legacy
+	warm  string // bare | <warm-up variant of the world>
 }
 
 func (s seqCase) String() string {
 	parts := make([]string, len(s.seq))
 	for i, l := range s.seq {
 		parts[i] = l.String()
+	}
+	if s.world != "" {
+		return s.world + "/" + s.proto + "/" + s.warm + "/" + strings.Join(parts, ",")
 	}
 	w := "bare"
 	if s.warmed {
@@ -172,7 +224,7 @@ func enumerate(maxLen int) []seqCase {
 							}
 						}
 						if !allPush {
-							out = append(out, seqCase{proto, warmed, append([]letter(nil), prefix...)})
+							out = append(out, seqCase{proto: proto, warmed: warmed, seq: append([]letter(nil), prefix...)})
 						}
 					}
 					if len(prefix) == maxLen {
@@ -219,19 +271,288 @@ func randomSeq(r *rand.Rand) seqCase {
 }
 
 // ---------------------------------------------------------------------------------------
+// extension strata: alphabets
+
+// aCombos are the (subscribe, unsubscribe) lists of the Address letters; withErr marks the ones that are
+// also sent with error_detail.
+var aCombos = []struct {
+	sub, unsub []int
+	withErr    bool
+}{
+	{nil, nil, true},                // no names: wildcard open / plain ACK / spontaneous request without change
+	{[]int{0}, nil, false},          // +*
+	{[]int{1}, nil, true},           // +ip1
+	{[]int{1, 2}, nil, false},       // +ip1 +vip
+	{[]int{3}, nil, false},          // +nx
+	{[]int{0}, []int{0}, false},     // +* -* : the documented way to open a subscription to nothing
+	{nil, []int{1}, true},           // -ip1
+	{nil, []int{0}, false},          // -*
+	{[]int{4}, nil, false},          // +ip3 (a pod on the ztunnel's own node: the generator subscribes it by itself)
+}
+
+func alphabetWorld(w *world, t string, nonces []string) []letter {
+	out := []letter{{Push: true}}
+	for _, k := range w.pushKinds {
+		out = append(out, letter{Push: true, Kind: k})
+	}
+	if managed[t] {
+		for _, cb := range aCombos {
+			for _, nonce := range nonces {
+				out = append(out, letter{Type: t, Sub: cb.sub, Unsub: cb.unsub, Nonce: nonce})
+				if cb.withErr {
+					out = append(out, letter{Type: t, Sub: cb.sub, Unsub: cb.unsub, Nonce: nonce, Err: true})
+				}
+			}
+		}
+		return out
+	}
+	ns := []int{0}
+	if !wildcard[t] {
+		ns = []int{0, 1, 2, 3}
+	}
+	for _, n := range ns {
+		for _, nonce := range nonces {
+			for _, e := range []bool{false, true} {
+				out = append(out, letter{Type: t, Names: n, Nonce: nonce, Err: e})
+			}
+		}
+	}
+	return out
+}
+
+var allNonces = []string{"empty", "current", "stale", "garbage"}
+
+// enumerateWorld lists every sequence of length <= fullLen over the full alphabet and, beyond that up to
+// maxLen, over the alphabet without the garbage nonce (on the server side garbage and stale take the same
+// branch; what differs is only what the client had received before).
+func enumerateWorld(w *world, fullLen, maxLen int) []seqCase {
+	var out []seqCase
+	for _, proto := range w.protos {
+		for _, warm := range append([]string{"bare"}, w.warmOrder...) {
+			for _, t := range w.enumTypes {
+				full := alphabetWorld(w, t, allNonces)
+				reduced := alphabetWorld(w, t, allNonces[:3])
+				var rec func(prefix []letter, alpha []letter, limit int)
+				rec = func(prefix []letter, alpha []letter, limit int) {
+					if len(prefix) > 0 {
+						allPush := true
+						for _, l := range prefix {
+							if !l.Push {
+								allPush = false
+							}
+						}
+						if !allPush {
+							out = append(out, seqCase{world: w.name, proto: proto, warm: warm, seq: append([]letter(nil), prefix...)})
+						}
+					}
+					if len(prefix) == limit {
+						return
+					}
+					for _, l := range alpha {
+						rec(append(prefix, l), alpha, limit)
+					}
+				}
+				rec(nil, full, fullLen)
+				if maxLen > fullLen {
+					// only the sequences longer than fullLen are new
+					var rec2 func(prefix []letter)
+					rec2 = func(prefix []letter) {
+						if len(prefix) > fullLen {
+							allPush := true
+							for _, l := range prefix {
+								if !l.Push {
+									allPush = false
+								}
+							}
+							if !allPush {
+								out = append(out, seqCase{world: w.name, proto: proto, warm: warm, seq: append([]letter(nil), prefix...)})
+							}
+						}
+						if len(prefix) == maxLen {
+							return
+						}
+						for _, l := range reduced {
+							rec2(append(prefix, l))
+						}
+					}
+					rec2(nil)
+				}
+			}
+		}
+	}
+	return out
+}
+
+func randomSeqWorld(r *rand.Rand, w *world) seqCase {
+	sc := seqCase{world: w.name, proto: w.protos[r.Intn(len(w.protos))]}
+	warms := append([]string{"bare"}, w.warmOrder...)
+	sc.warm = warms[r.Intn(len(warms))]
+	n := 4 + r.Intn(9)
+	for i := 0; i < n; i++ {
+		if r.Intn(7) == 0 {
+			l := letter{Push: true}
+			if k := r.Intn(len(w.pushKinds) + 1); k > 0 {
+				l.Kind = w.pushKinds[k-1]
+			}
+			sc.seq = append(sc.seq, l)
+			continue
+		}
+		t := w.randomMix[r.Intn(len(w.randomMix))]
+		l := letter{Type: t, Err: r.Intn(6) == 0}
+		switch {
+		case managed[t]:
+			if r.Intn(3) > 0 {
+				cb := aCombos[r.Intn(len(aCombos))]
+				l.Sub, l.Unsub = cb.sub, cb.unsub
+			} else {
+				// free combination over the universe
+				for i := range aNames {
+					switch r.Intn(5) {
+					case 0:
+						l.Sub = append(l.Sub, i)
+					case 1:
+						l.Unsub = append(l.Unsub, i)
+					}
+				}
+			}
+		case !wildcard[t]:
+			l.Names = r.Intn(len(nameSets))
+		}
+		switch x := r.Intn(10); {
+		case x < 4:
+			l.Nonce = "current"
+		case x < 7:
+			l.Nonce = "empty"
+		case x < 9:
+			l.Nonce = "stale"
+		default:
+			l.Nonce = "garbage"
+		}
+		sc.seq = append(sc.seq, l)
+	}
+	return sc
+}
+
+// parseCase is the inverse of seqCase.String (replay and ad-hoc reproduction run a sequence directly
+// instead of walking the enumeration).
+func parseCase(s string) (seqCase, bool) {
+	var sc seqCase
+	parts := strings.SplitN(s, "/", 2)
+	if len(parts) != 2 {
+		return sc, false
+	}
+	if w, ok := worlds[parts[0]]; ok && w.name != "" {
+		sc.world = w.name
+		s = parts[1]
+	}
+	parts = strings.SplitN(s, "/", 3)
+	if len(parts) != 3 || (parts[0] != "sotw" && parts[0] != "delta") {
+		return sc, false
+	}
+	sc.proto = parts[0]
+	if sc.world == "" {
+		switch parts[1] {
+		case "bare":
+		case "warmed":
+			sc.warmed = true
+		default:
+			return sc, false
+		}
+	} else {
+		sc.warm = parts[1]
+		if sc.warm != "bare" && worlds[sc.world].warm[sc.warm] == nil {
+			return sc, false
+		}
+	}
+	for _, ls := range strings.Split(parts[2], ",") {
+		l, ok := parseLetter(ls)
+		if !ok {
+			return sc, false
+		}
+		sc.seq = append(sc.seq, l)
+	}
+	return sc, len(sc.seq) > 0
+}
+
+func parseLetter(s string) (letter, bool) {
+	var l letter
+	if s == "push" {
+		return letter{Push: true}, true
+	}
+	if strings.HasPrefix(s, "push:") {
+		return letter{Push: true, Kind: s[5:]}, true
+	}
+	f := strings.Split(s, "/")
+	if len(f) < 2 || len(f) > 3 {
+		return l, false
+	}
+	l.Nonce = f[1]
+	if len(f) == 3 {
+		if f[2] != "nack" {
+			return l, false
+		}
+		l.Err = true
+	}
+	head := f[0]
+	switch {
+	case strings.Contains(head, "("):
+		i := strings.Index(head, "(")
+		l.Type = head[:i]
+		body := strings.TrimSuffix(head[i+1:], ")")
+		for len(body) > 0 {
+			sign := body[0]
+			body = body[1:]
+			j := strings.IndexAny(body, "+-")
+			if j < 0 {
+				j = len(body)
+			}
+			idx := -1
+			for k, n := range aShort {
+				if n == body[:j] {
+					idx = k
+				}
+			}
+			if idx < 0 {
+				return l, false
+			}
+			if sign == '+' {
+				l.Sub = append(l.Sub, idx)
+			} else {
+				l.Unsub = append(l.Unsub, idx)
+			}
+			body = body[j:]
+		}
+	case strings.Contains(head, "["):
+		i := strings.Index(head, "[")
+		l.Type = head[:i]
+		l.Names = -1
+		for k, ns := range nameSets {
+			if fmt.Sprint(ns) == head[i:] {
+				l.Names = k
+			}
+		}
+		if l.Names < 0 {
+			return l, false
+		}
+	default:
+		l.Type = head
+	}
+	if typeURLs[l.Type] == "" {
+		return l, false
+	}
+	return l, true
+}
+
+// ---------------------------------------------------------------------------------------
 // server holder (rebuilt after a recovered panic: locks may be left held)
 
 type server struct {
-	f   *vh.F
-	srv *xdsfake.FakeDiscoveryServer
+	f    *vh.F
+	srv  *xdsfake.FakeDiscoveryServer
+	kind string
 }
 
-func newServer() *server {
-	f := vh.NewF()
-	srv := xdsfake.NewFakeDiscoveryServer(f, xdsfake.FakeOptions{ConfigString: serverConfig})
-	xdsshim.InstallBarrier(srv.Discovery)
-	return &server{f: f, srv: srv}
-}
+func newServer() *server { return newServerKind("legacy") }
 
 // ---------------------------------------------------------------------------------------
 
@@ -240,13 +561,23 @@ func run(c *vh.Ctx) {
 	var s *server
 	taints := 0
 	var conID int
+	// serverFor hands out the server of the kind a world needs; servers of different kinds are never alive
+	// at the same time (the ambient switch is a package variable, and the quiescence detector of the
+	// concurrent stratum looks at every goroutine of the process).
+	serverFor := func(kind string) *server {
+		if s != nil && s.kind != kind {
+			s.f.Done()
+			s = nil
+		}
+		if s == nil {
+			s = newServerKind(kind)
+		}
+		return s
+	}
 	exec := func(idx int, sc seqCase) {
 		c.Case(sc.String(), func() {
-			if s == nil {
-				s = newServer()
-			}
 			conID++
-			tainted := runSequence(c, s, sc, conID)
+			tainted := runSequence(c, serverFor(worlds[sc.world].serverKind), sc, conID)
 			if tainted {
 				// do not run cleanups: a recovered panic may have left locks held
 				s = nil
@@ -262,23 +593,93 @@ func run(c *vh.Ctx) {
 		}
 		return false
 	}
+	finish := func() {
+		if s != nil {
+			s.f.Done()
+		}
+	}
+	// replay / ad-hoc reproduction of one sequence: run it directly
+	if c.Only != "" {
+		if sc, ok := parseCase(c.Only); ok && sc.String() == c.Only {
+			exec(0, sc)
+			finish()
+			return
+		}
+	}
+	only := strataFilter()
 	maxLen := c.N(2, 3)
-	cases := enumerate(maxLen)
-	for i, sc := range cases {
-		if c.Mine(i) && !tooMany() {
-			exec(i, sc)
+	if only[""] {
+		cases := enumerate(maxLen)
+		for i, sc := range cases {
+			if c.Mine(i) && !tooMany() {
+				exec(i, sc)
+			}
+		}
+		c.Count("enumerated_sequences_total", 0)
+		nr := c.N(300, 8000)
+		for i := 0; i < nr; i++ {
+			if c.Mine(i) && !tooMany() {
+				exec(i, randomSeq(c.Rng("random", i)))
+			}
 		}
 	}
-	c.Count("enumerated_sequences_total", 0)
-	nr := c.N(300, 8000)
-	for i := 0; i < nr; i++ {
-		if c.Mine(i) && !tooMany() {
-			exec(i, randomSeq(c.Rng("random", i)))
+	// extension strata, grouped by server kind: ext (ecds, sds, grpc, api), then the concurrent stratum on
+	// ext, then amb and the concurrent stratum on amb
+	for _, wn := range []string{"ecds", "sds", "grpc", "api", "conc-ext", "amb", "conc-amb"} {
+		if !only[wn] {
+			continue
+		}
+		if strings.HasPrefix(wn, "conc-") {
+			nc := c.N(concQuick[wn], concThorough[wn])
+			for i := 0; i < nc; i++ {
+				if c.Mine(i) && !tooMany() {
+					cc := genConc(c.Rng(wn, i), wn, i)
+					c.Case(cc.name(), func() {
+						conID++
+						if runConcurrent(c, serverFor(cc.w.serverKind), cc, conID) {
+							s = nil
+							taints++
+						}
+					})
+				}
+			}
+			continue
+		}
+		w := worlds[wn]
+		cases := enumerateWorld(w, 2, maxLen)
+		for i, sc := range cases {
+			if c.Mine(i) && !tooMany() {
+				exec(i, sc)
+			}
+		}
+		nr := c.N(150, 2500)
+		for i := 0; i < nr; i++ {
+			if c.Mine(i) && !tooMany() {
+				exec(i, randomSeqWorld(c.Rng(w.randStream, i), w))
+			}
 		}
 	}
-	if s != nil {
-		s.f.Done()
+	finish()
+}
+
+// strataFilter: development aid (XDSPROTO_ONLY=legacy,ecds,...); unset = everything.
+func strataFilter() map[string]bool {
+	all := []string{"", "ecds", "sds", "grpc", "api", "conc-ext", "amb", "conc-amb"}
+	out := map[string]bool{}
+	v := os.Getenv("XDSPROTO_ONLY")
+	if v == "" {
+		for _, a := range all {
+			out[a] = true
+		}
+		return out
 	}
+	for _, f := range strings.Split(v, ",") {
+		if f == "legacy" {
+			f = ""
+		}
+		out[f] = true
+	}
+	return out
 }
 
 // ---------------------------------------------------------------------------------------
@@ -295,10 +696,31 @@ type typeState struct {
 	// (an unsubscribe or subscription change carried by a stale/garbage-nonce request or by a NACK) has been
 	// sent; until the type is re-opened with an empty nonce, nothing is asserted about it.
 	unknown bool
+	// managed types: "wild" | "od" (on-demand, explicit names) once opened
+	mode string
+	// reopenedSilent: the last request that made the server create its record anew (first request of the type after
+	// an unsubscribe, or a SotW request with an empty nonce) was not answered although the client holds a nonce of
+	// an earlier response of this type on the stream; cleared by the next response. Only used to give violations
+	// that follow such a state a key of their own (root cause recognisable from the input shape).
+	reopenedSilent bool
+	// noRespSinceOpen: the server has (re)created its record for the type (first request, or a SotW request with an
+	// empty nonce) and has not sent a response of the type since. There is then no current nonce for the watch, and
+	// "stale" (a nonce superseded by a newer one) is not defined either: on SotW, where the server takes the nonce a
+	// client presents when it (re)opens a watch as the stream's last one, a request with a nonce other than the
+	// client's latest is unspecified in this state instead of must-be-silent.
+	noRespSinceOpen bool
+}
+
+func (st *typeState) causeSuffix() string {
+	if st.reopenedSilent {
+		return ":after-unanswered-reopen"
+	}
+	return ""
 }
 
 type client struct {
 	c       *vh.Ctx
+	w       *world
 	proto   string
 	sotw    *xdsshim.SotwStream
 	delta   *xdsshim.DeltaStream
@@ -307,6 +729,12 @@ type client struct {
 	barrier chan string
 	seq     int
 	ts      map[string]*typeState
+	// authenticated streams are served by the client itself (the shim's Serve would pass the plaintext peer)
+	ownDone  chan struct{}
+	ownErr   error
+	ownPanic string
+	// concurrent stratum: called on the server's stream goroutine for every non-barrier response
+	onResp func(respRec)
 }
 
 type respRec struct {
@@ -314,6 +742,7 @@ type respRec struct {
 	Nonce   string
 	Names   []string
 	Removed []string
+	Aliases []string
 }
 
 func shortOf(url string) string {
@@ -325,13 +754,42 @@ func shortOf(url string) string {
 	return url
 }
 
-func newClient(c *vh.Ctx, s *server, proto string, conID int) *client {
-	cl := &client{c: c, proto: proto, barrier: make(chan string, 16), ts: map[string]*typeState{}}
-	for t := range typeURLs {
+// short maps a type URL to the short name it has in the client's world (several short names may share one
+// URL across worlds, never inside one).
+func (cl *client) short(url string) string {
+	for _, t := range cl.w.types {
+		if typeURLs[t] == url {
+			return t
+		}
+	}
+	return url
+}
+
+func newClient(c *vh.Ctx, s *server, w *world, proto string, conID int) *client {
+	cl := &client{c: c, w: w, proto: proto, barrier: make(chan string, 16), ts: map[string]*typeState{}}
+	for _, t := range w.types {
 		cl.ts[t] = &typeState{names: map[string]bool{}}
 	}
+	var parent context.Context
+	if w.cred != nil {
+		parent = context.WithValue(context.Background(), credKey{}, w.cred)
+	}
+	ip := fmt.Sprintf("10.200.%d.%d", conID/250%250, conID%250+1)
+	own := func(serve func() error, cancel func()) {
+		cl.ownDone = make(chan struct{})
+		go func() {
+			defer close(cl.ownDone)
+			defer cancel() // gRPC cancels the stream context when the handler returns
+			defer func() {
+				if r := recover(); r != nil {
+					cl.ownPanic = fmt.Sprintf("%v\n%s", r, debug.Stack())
+				}
+			}()
+			cl.ownErr = serve()
+		}()
+	}
 	if proto == "sotw" {
-		cl.sotw = xdsshim.NewSotw(nil, func(r *discovery.DiscoveryResponse) error {
+		cl.sotw = xdsshim.NewSotw(parent, func(r *discovery.DiscoveryResponse) error {
 			if r.TypeUrl == xdsshim.BarrierType {
 				cl.barrier <- r.Nonce
 				return nil
@@ -341,11 +799,19 @@ func newClient(c *vh.Ctx, s *server, proto string, conID int) *client {
 			cl.mu.Lock()
 			cl.resp = append(cl.resp, rr)
 			cl.mu.Unlock()
+			if cl.onResp != nil {
+				cl.onResp(rr)
+			}
 			return nil
 		})
-		cl.sotw.Serve(s.srv.Discovery)
+		if w.cred != nil {
+			wr := sotwWrap{cl.sotw, tlsContext(cl.sotw.Context(), ip)}
+			own(func() error { return s.srv.Discovery.Stream(wr) }, cl.sotw.Cancel)
+		} else {
+			cl.sotw.Serve(s.srv.Discovery)
+		}
 	} else {
-		cl.delta = xdsshim.NewDelta(nil, func(r *discovery.DeltaDiscoveryResponse) error {
+		cl.delta = xdsshim.NewDelta(parent, func(r *discovery.DeltaDiscoveryResponse) error {
 			if r.TypeUrl == xdsshim.BarrierType {
 				cl.barrier <- r.Nonce
 				return nil
@@ -353,18 +819,30 @@ func newClient(c *vh.Ctx, s *server, proto string, conID int) *client {
 			rr := respRec{TypeURL: r.TypeUrl, Nonce: r.Nonce, Removed: r.RemovedResources}
 			for _, rs := range r.Resources {
 				rr.Names = append(rr.Names, rs.Name)
+				rr.Aliases = append(rr.Aliases, rs.Aliases...)
 			}
 			cl.mu.Lock()
 			cl.resp = append(cl.resp, rr)
 			cl.mu.Unlock()
+			if cl.onResp != nil {
+				cl.onResp(rr)
+			}
 			return nil
 		})
-		cl.delta.Serve(s.srv.Discovery)
+		if w.cred != nil {
+			wr := deltaWrap{cl.delta, tlsContext(cl.delta.Context(), ip)}
+			own(func() error { return s.srv.Discovery.StreamDeltas(wr) }, cl.delta.Cancel)
+		} else {
+			cl.delta.Serve(s.srv.Discovery)
+		}
 	}
 	return cl
 }
 
 func (cl *client) done() <-chan struct{} {
+	if cl.ownDone != nil {
+		return cl.ownDone
+	}
 	if cl.sotw != nil {
 		return cl.sotw.Done()
 	}
@@ -376,6 +854,9 @@ func (cl *client) panicked() string {
 	case <-cl.done():
 	default:
 		return ""
+	}
+	if cl.ownDone != nil {
+		return cl.ownPanic
 	}
 	if cl.sotw != nil {
 		return cl.sotw.Panicked()
@@ -477,16 +958,52 @@ func anyExisting(t string, ns []string) bool {
 	return false
 }
 
+func worldLabel(w *world) string {
+	if w.name == "" {
+		return "legacy"
+	}
+	return w.name
+}
+
+// resolveNonce turns a nonce kind into the nonce sent and the kind it effectively is given what this stream
+// has received for the type.
+func resolveNonce(st *typeState, nonceKind string) (nonce, effKind string) {
+	effKind = nonceKind
+	switch nonceKind {
+	case "current":
+		if len(st.nonces) > 0 {
+			nonce = st.nonces[len(st.nonces)-1]
+		} else {
+			effKind = "empty"
+		}
+	case "stale":
+		if len(st.nonces) > 1 {
+			nonce = st.nonces[len(st.nonces)-2]
+			if nonce == st.nonces[len(st.nonces)-1] {
+				nonce = "stale-" + nonce
+			}
+		} else {
+			nonce = "never-sent-nonce"
+			effKind = "garbage"
+		}
+	case "garbage":
+		nonce = "garbage-nonce"
+	}
+	return nonce, effKind
+}
+
 // runSequence returns true when the server must be abandoned (panic observed).
 func runSequence(c *vh.Ctx, s *server, sc seqCase, conID int) bool {
+	w := worlds[sc.world]
+	wl := worldLabel(w)
 	ds := s.srv.Discovery
 	if !xdsshim.WaitControlPlaneIdle(ds, 60*time.Second) {
 		c.Inconclusive("control plane did not become idle before the sequence")
 		return false
 	}
-	cl := newClient(c, s, sc.proto, conID)
+	cl := newClient(c, s, w, sc.proto, conID)
 	defer cl.close()
-	nd := xdsshim.Node("sidecar", fmt.Sprintf("10.9.%d.%d", conID/250%250, conID%250+1), fmt.Sprintf("app-%d", conID), "default", nil)
+	nd := w.node(conID)
 	first := true // node must be set on the first request of the stream
 	conformant := true
 	lastWasNack := map[string]bool{}
@@ -541,6 +1058,18 @@ func runSequence(c *vh.Ctx, s *server, sc seqCase, conID int) bool {
 		}
 		return cl.delta.Request(r)
 	}
+	// sendManaged: a delta request with explicit subscribe / unsubscribe lists
+	sendManaged := func(t string, sub, unsub []string, nonce string, nack bool) bool {
+		r := &discovery.DeltaDiscoveryRequest{TypeUrl: typeURLs[t], ResponseNonce: nonce, ResourceNamesSubscribe: sub, ResourceNamesUnsubscribe: unsub}
+		if nack {
+			r.ErrorDetail = &status.Status{Code: 3, Message: "rejected by hostile client"}
+		}
+		if first {
+			r.Node = nd
+			first = false
+		}
+		return cl.delta.Request(r)
+	}
 
 	panicReported := false
 	checkPanic := func(where string) bool {
@@ -556,33 +1085,39 @@ func runSequence(c *vh.Ctx, s *server, sc seqCase, conID int) bool {
 		return false
 	}
 
+	// exchange hands one request to the server and decides through the barrier what it answered.
+	exchange := func(where string, sendFn func() bool) (got []respRec, ok bool, tainted bool) {
+		before := cl.respLen()
+		if !sendFn() {
+			if checkPanic(where) {
+				return nil, false, true
+			}
+			c.Inconclusive("stream closed by server: " + errString(cl))
+			return nil, false, false
+		}
+		switch cl.doBarrier() {
+		case "":
+		case "panic":
+			checkPanic(where)
+			return nil, false, true
+		case "closed":
+			if checkPanic("request") {
+				return nil, false, true
+			}
+			c.Inconclusive("stream closed by server: " + errString(cl))
+			return nil, false, false
+		default:
+			c.Inconclusive("barrier lost")
+			return nil, false, false
+		}
+		return cl.responsesSince(before), true, false
+	}
+
 	// step executes one request and decides respond/silent through the barrier.
 	step := func(t string, ns []string, nonceKind string, nack bool, hostile bool) (ok bool, tainted bool) {
 		st := cl.ts[t]
 		totalSteps++
-		// resolve nonce
-		nonce := ""
-		effKind := nonceKind
-		switch nonceKind {
-		case "current":
-			if len(st.nonces) > 0 {
-				nonce = st.nonces[len(st.nonces)-1]
-			} else {
-				effKind = "empty"
-			}
-		case "stale":
-			if len(st.nonces) > 1 {
-				nonce = st.nonces[len(st.nonces)-2]
-				if nonce == st.nonces[len(st.nonces)-1] {
-					nonce = "stale-" + nonce
-				}
-			} else {
-				nonce = "never-sent-nonce"
-				effKind = "garbage"
-			}
-		case "garbage":
-			nonce = "garbage-nonce"
-		}
+		nonce, effKind := resolveNonce(st, nonceKind)
 		// classify by the protocol model
 		exp := unspecified
 		addedExisting := false
@@ -606,7 +1141,7 @@ func runSequence(c *vh.Ctx, s *server, sc seqCase, conID int) bool {
 			}
 		}
 		isFirst := !st.hasRecord
-		unsub := !wildcard[t] && len(ns) == 0
+		unsub := !wildcard[t] && !namedWildcard[t] && len(ns) == 0
 		wasUnknown := st.unknown
 		switch {
 		case st.unknown && !nack:
@@ -624,6 +1159,9 @@ func runSequence(c *vh.Ctx, s *server, sc seqCase, conID int) bool {
 			}
 		case effKind == "stale" || effKind == "garbage":
 			exp = mustBeSilent
+			if sc.proto == "sotw" && st.noRespSinceOpen {
+				exp = unspecified
+			}
 		case effKind == "empty":
 			// SotW: empty nonce on a type that already has a record is outside the property's cases.
 			// delta: a spontaneous request; responds iff it adds names.
@@ -653,30 +1191,11 @@ func runSequence(c *vh.Ctx, s *server, sc seqCase, conID int) bool {
 		if sc.proto == "delta" && effKind == "empty" && !isFirst && len(added) == 0 && !removedAny {
 			conformant = false
 		}
-		before := cl.respLen()
-		if !send(t, ns, nonce, nack) {
-			if checkPanic(fmt.Sprintf("%s names=%v nonce=%s nack=%v", t, ns, effKind, nack)) {
-				return false, true
-			}
-			c.Inconclusive("stream closed by server: " + errString(cl))
-			return false, false
+		where := fmt.Sprintf("%s names=%v nonce=%s nack=%v", t, ns, effKind, nack)
+		got, ok, tainted := exchange(where, func() bool { return send(t, ns, nonce, nack) })
+		if !ok {
+			return false, tainted
 		}
-		switch cl.doBarrier() {
-		case "":
-		case "panic":
-			checkPanic(fmt.Sprintf("%s names=%v nonce=%s nack=%v", t, ns, effKind, nack))
-			return false, true
-		case "closed":
-			if checkPanic("request") {
-				return false, true
-			}
-			c.Inconclusive("stream closed by server: " + errString(cl))
-			return false, false
-		default:
-			c.Inconclusive("barrier lost")
-			return false, false
-		}
-		got := cl.responsesSince(before)
 		nT := 0
 		var gotNames []string
 		for _, r := range got {
@@ -684,20 +1203,25 @@ func runSequence(c *vh.Ctx, s *server, sc seqCase, conID int) bool {
 				nT++
 				gotNames = append(gotNames, r.Names...)
 			}
-			ts := cl.ts[shortOf(r.TypeURL)]
+			ts := cl.ts[cl.short(r.TypeURL)]
 			if ts != nil {
 				ts.nonces = append(ts.nonces, r.Nonce)
+				ts.reopenedSilent, ts.noRespSinceOpen = false, false
 			}
 		}
 		c.Count("stimuli", 1)
 		c.Count("stimuli_"+exp.String(), 1)
+		c.Count("stim:"+wl+":"+t+":"+exp.String(), 1)
+		if trace {
+			fmt.Fprintf(os.Stderr, "TRACE %s names=%v nonce=%s(%s) nack=%v first=%v => expect %s, got %s\n", t, shortNames(ns), nonceKind, effKind, nack, isFirst, exp, traceResp(cl, got))
+		}
 		c.SetAdd("stimulus_classes", fmt.Sprintf("%s/%s/first=%v/nonce=%s/nack=%v/added=%v/removed=%v => %s", sc.proto, t, isFirst, effKind, nack, len(added) > 0, removedAny, exp))
 		what := fmt.Sprintf("%s %s names=%v nonce=%s(%s) nack=%v [first=%v added=%v] in %s", sc.proto, t, shortNames(ns), nonceKind, effKind, nack, isFirst, shortNames(added), sc.String())
 		switch exp {
 		case mustRespond:
 			sawRespond = true
 			if nT == 0 {
-				c.Violation(fmt.Sprintf("silent-on-must-respond:%s:%s:first=%v:nonce=%s", sc.proto, t, isFirst, effKind),
+				c.Violation(fmt.Sprintf("silent-on-must-respond:%s:%s:first=%v:nonce=%s", sc.proto, t, isFirst, effKind)+st.causeSuffix(),
 					"server stayed silent on a stimulus that requires a response: "+what, map[string]any{"sequence": sc.String()})
 			} else if !wildcard[t] {
 				// the response must carry the newly requested existing resources
@@ -724,8 +1248,22 @@ func runSequence(c *vh.Ctx, s *server, sc seqCase, conID int) bool {
 		}
 		// advance the model of the server's record
 		_ = wasUnknown
+		if nT == 0 && !nack && !unsub && (isFirst || (sc.proto == "sotw" && effKind == "empty")) && len(st.nonces) > 0 {
+			st.reopenedSilent = true
+		}
+		if nT == 0 && !nack && !unsub && (isFirst || wasUnknown || (sc.proto == "sotw" && effKind == "empty")) {
+			st.noRespSinceOpen = true
+		}
 		if !wildcard[t] && (nack || effKind == "stale" || effKind == "garbage") && (len(added) > 0 || removedAny || isFirst) {
 			st.unknown = true
+		}
+		if st.unknown && !nack {
+			// a request for a type whose record is not known may have created it anew: for the CDS-like type of the
+			// world that arms the documented forced EDS response (never the case for the legacy CDS, which is wildcard
+			// and therefore never unknown)
+			if e := cl.ts[w.edsOf(t)]; e != nil && e.hasRecord {
+				e.forceNext = true
+			}
 		}
 		if nack {
 			lastWasNack[t] = true
@@ -745,6 +1283,7 @@ func runSequence(c *vh.Ctx, s *server, sc seqCase, conID int) bool {
 			accepted = true
 		}
 		if accepted {
+			eds := cl.ts[w.edsOf(t)]
 			if sc.proto == "sotw" {
 				if unsub {
 					st.hasRecord = false
@@ -753,8 +1292,8 @@ func runSequence(c *vh.Ctx, s *server, sc seqCase, conID int) bool {
 				} else {
 					if isFirst || effKind == "empty" {
 						st.forceNext = false
-						if t == "CDS" && cl.ts["EDS"].hasRecord {
-							cl.ts["EDS"].forceNext = true
+						if eds != nil && eds.hasRecord {
+							eds.forceNext = true
 						}
 					} else if effKind == "current" {
 						st.forceNext = false
@@ -763,8 +1302,8 @@ func runSequence(c *vh.Ctx, s *server, sc seqCase, conID int) bool {
 					st.names = nsSet
 				}
 			} else {
-				if isFirst && t == "CDS" && cl.ts["EDS"].hasRecord {
-					cl.ts["EDS"].forceNext = true
+				if isFirst && eds != nil && eds.hasRecord {
+					eds.forceNext = true
 				}
 				if !isFirst && len(added) == 0 && !removedAny {
 					st.forceNext = false
@@ -776,24 +1315,214 @@ func runSequence(c *vh.Ctx, s *server, sc seqCase, conID int) bool {
 		return true, false
 	}
 
-	// optional conformant warm-up: CDS, EDS{n1,n2}, LDS, RDS{n1,n2}, each ACKed
-	if sc.warmed {
-		for _, w := range []struct {
-			t  string
-			ns []string
-		}{{"CDS", nil}, {"EDS", namesOf("EDS", 2)}, {"LDS", nil}, {"RDS", namesOf("RDS", 2)}} {
-			if ok, tainted := step(w.t, w.ns, "empty", false, false); !ok {
+	// stepManaged: one Address request with explicit subscribe / unsubscribe lists (delta only).
+	stepManaged := func(t string, subIdx, unsubIdx []int, nonceKind string, nack bool) (ok bool, tainted bool) {
+		st := cl.ts[t]
+		totalSteps++
+		nonce, effKind := resolveNonce(st, nonceKind)
+		var sub, unsub []string
+		subStar, unsubStar := false, false
+		var added []string // names (other than *) the request adds to what the client holds
+		addedExisting := false
+		for _, i := range subIdx {
+			sub = append(sub, aNames[i])
+			if i == 0 {
+				subStar = true
+				continue
+			}
+			if !st.names[aNames[i]] {
+				added = append(added, aNames[i])
+				if aExists(i) {
+					addedExisting = true
+				}
+			}
+		}
+		removedAny, removesUnheld := false, false
+		for _, i := range unsubIdx {
+			unsub = append(unsub, aNames[i])
+			if i == 0 {
+				unsubStar = true
+				continue
+			}
+			if st.names[aNames[i]] {
+				removedAny = true
+			} else {
+				removesUnheld = true
+			}
+		}
+		anyNames := len(subIdx)+len(unsubIdx) > 0
+		isFirst := !st.hasRecord
+		wildOpen := len(unsubIdx) == 0 && (len(subIdx) == 0 || (len(subIdx) == 1 && subStar))
+		nothingOpen := len(subIdx) == 1 && subStar && len(unsubIdx) == 1 && unsubStar // +* -*: subscribe to nothing (documented in delta.go)
+		namedOpen := len(unsubIdx) == 0 && !subStar && len(subIdx) > 0
+		exp := unspecified
+		switch {
+		case st.unknown && !nack:
+		case nack:
+			exp = mustBeSilent
+		case isFirst:
+			// first request of the type on this stream, whatever the nonce (reconnect)
+			if wildOpen || (namedOpen && addedExisting) {
+				exp = mustRespond
+			}
+		case effKind == "stale" || effKind == "garbage":
+			exp = mustBeSilent
+		case effKind == "empty":
+			// spontaneous request: the property fixes only "adds names to the subscription on record". Names
+			// on a wildcard subscription, mode switches (*), re-subscriptions and pure removals are not fixed.
+			if st.mode == "od" && !subStar && !unsubStar && addedExisting {
+				exp = mustRespond
+			}
+		case effKind == "current":
+			if !anyNames {
+				exp = mustBeSilent // plain ACK
+			}
+		}
+		if effKind == "stale" || effKind == "garbage" || (nack && len(st.nonces) == 0) {
+			conformant = false
+		}
+		if effKind == "current" && anyNames {
+			conformant = false // delta subscription changes travel in spontaneous requests
+		}
+		if effKind == "empty" && !isFirst && !anyNames {
+			conformant = false
+		}
+		if removesUnheld || (isFirst && len(unsubIdx) > 0 && !nothingOpen) || (subStar && unsubStar && !nothingOpen) {
+			conformant = false
+		}
+		where := fmt.Sprintf("%s sub=%v unsub=%v nonce=%s nack=%v", t, sub, unsub, effKind, nack)
+		got, ok, tainted := exchange(where, func() bool { return sendManaged(t, sub, unsub, nonce, nack) })
+		if !ok {
+			return false, tainted
+		}
+		nT := 0
+		carried := map[string]bool{}
+		for _, r := range got {
+			if r.TypeURL == typeURLs[t] {
+				nT++
+				for _, n := range r.Names {
+					carried[n] = true
+				}
+				for _, n := range r.Aliases {
+					carried[n] = true
+				}
+			}
+			if ts := cl.ts[cl.short(r.TypeURL)]; ts != nil {
+				ts.nonces = append(ts.nonces, r.Nonce)
+				ts.reopenedSilent, ts.noRespSinceOpen = false, false
+			}
+		}
+		c.Count("stimuli", 1)
+		c.Count("stimuli_"+exp.String(), 1)
+		c.Count("stim:"+wl+":"+t+":"+exp.String(), 1)
+		if trace {
+			fmt.Fprintf(os.Stderr, "TRACE %s sub=%v unsub=%v nonce=%s(%s) nack=%v first=%v mode=%q => expect %s, got %s\n", t, sub, unsub, nonceKind, effKind, nack, isFirst, st.mode, exp, traceResp(cl, got))
+		}
+		c.SetAdd("stimulus_classes", fmt.Sprintf("%s/%s/first=%v/mode=%s/nonce=%s/nack=%v/sub*=%v/unsub*=%v/added=%v/removed=%v => %s",
+			sc.proto, t, isFirst, st.mode, effKind, nack, subStar, unsubStar, len(added) > 0, removedAny, exp))
+		what := fmt.Sprintf("%s %s sub=%v unsub=%v nonce=%s(%s) nack=%v [first=%v mode=%q added=%v] in %s", sc.proto, t, sub, unsub, nonceKind, effKind, nack, isFirst, st.mode, added, sc.String())
+		switch exp {
+		case mustRespond:
+			sawRespond = true
+			if nT == 0 {
+				c.Violation(fmt.Sprintf("silent-on-must-respond:%s:%s:first=%v:nonce=%s", sc.proto, t, isFirst, effKind),
+					"server stayed silent on a stimulus that requires a response: "+what, map[string]any{"sequence": sc.String()})
+			} else if !wildOpen {
+				// the response must carry the newly requested existing resources (by name or alias)
+				for _, i := range subIdx {
+					n := aNames[i]
+					if i != 0 && aExists(i) && !st.names[n] && !carried[n] {
+						c.Violation(fmt.Sprintf("response-misses-new-name:%s:%s", sc.proto, t),
+							fmt.Sprintf("response carries no resource named or aliased %s; %s", n, what), map[string]any{"sequence": sc.String()})
+					}
+				}
+			}
+		case mustBeSilent:
+			sawSilent = true
+			if nT > 0 {
+				c.Violation(fmt.Sprintf("response-on-must-be-silent:%s:%s:nonce=%s:nack=%v", sc.proto, t, effKind, nack),
+					fmt.Sprintf("server answered (%d responses) a stimulus on which it must stay silent: %s", nT, what), map[string]any{"sequence": sc.String()})
+			}
+		}
+		if nT > 1 {
+			c.Violation(fmt.Sprintf("multiple-responses:%s:%s", sc.proto, t), fmt.Sprintf("%d responses of one type to one request: %s", nT, what), map[string]any{"sequence": sc.String()})
+		}
+		// advance the model
+		if (nack || effKind == "stale" || effKind == "garbage") && (anyNames || isFirst) {
+			st.unknown = true
+		}
+		if nack {
+			lastWasNack[t] = true
+			return true, false
+		}
+		if st.unknown {
+			return true, false
+		}
+		lastWasNack[t] = false
+		apply := func() {
+			for _, i := range subIdx {
+				if i != 0 {
+					st.names[aNames[i]] = true
+				}
+			}
+			for _, i := range unsubIdx {
+				if i != 0 {
+					delete(st.names, aNames[i])
+				}
+			}
+		}
+		switch {
+		case isFirst:
+			st.hasRecord = true
+			switch {
+			case wildOpen:
+				st.mode = "wild"
+			case nothingOpen:
+				st.mode = "od"
+			case namedOpen:
+				st.mode = "od"
+				apply()
+			default:
+				st.unknown = true // an opening request that mixes * with names or carries unsubscribes
+			}
+		case subStar || unsubStar:
+			st.unknown = true // switching between wildcard and named mode after the opening request
+		case st.mode == "od":
+			apply()
+		}
+		return true, false
+	}
+
+	// optional conformant warm-up, each step ACKed (legacy: CDS, EDS{n1,n2}, LDS, RDS{n1,n2})
+	var warm []warmStep
+	if sc.world == "" {
+		if sc.warmed {
+			warm = []warmStep{{t: "CDS"}, {t: "EDS", ns: namesOf("EDS", 2)}, {t: "LDS"}, {t: "RDS", ns: namesOf("RDS", 2)}}
+		}
+	} else if sc.warm != "bare" {
+		warm = w.warm[sc.warm]
+	}
+	for _, ws := range warm {
+		if managed[ws.t] {
+			if ok, tainted := stepManaged(ws.t, ws.sub, nil, "empty", false); !ok {
 				return tainted
 			}
-			if ok, tainted := step(w.t, w.ns, "current", false, false); !ok {
+			if ok, tainted := stepManaged(ws.t, nil, nil, "current", false); !ok {
 				return tainted
 			}
+			continue
+		}
+		if ok, tainted := step(ws.t, ws.ns, "empty", false, false); !ok {
+			return tainted
+		}
+		if ok, tainted := step(ws.t, ws.ns, "current", false, false); !ok {
+			return tainted
 		}
 	}
 	for _, l := range sc.seq {
 		if l.Push {
 			before := cl.respLen()
-			ds.ConfigUpdate(&model.PushRequest{Forced: true, Reason: model.NewReasonStats(model.DebugTrigger)})
+			doPush(ds, l.Kind)
 			if !xdsshim.WaitControlPlaneIdle(ds, 60*time.Second) {
 				c.Inconclusive("push did not quiesce")
 				return false
@@ -810,18 +1539,35 @@ func runSequence(c *vh.Ctx, s *server, sc seqCase, conID int) bool {
 				return false
 			}
 			per := map[string]int{}
+			if trace {
+				fmt.Fprintf(os.Stderr, "TRACE push:%s => got %s\n", pushLabel(l.Kind), traceResp(cl, cl.responsesSince(before)))
+			}
 			for _, r := range cl.responsesSince(before) {
-				t := shortOf(r.TypeURL)
+				t := cl.short(r.TypeURL)
 				per[t]++
 				if ts := cl.ts[t]; ts != nil {
 					ts.nonces = append(ts.nonces, r.Nonce)
+					ts.reopenedSilent, ts.noRespSinceOpen = false, false
 				}
 			}
 			c.Count("pushes", 1)
+			if sc.world != "" {
+				c.Count("pushes:"+wl+":"+pushLabel(l.Kind), 1)
+				for t, n := range per {
+					c.Count("push_responses:"+wl+":"+pushLabel(l.Kind)+":"+t, n)
+				}
+			}
 			for t, n := range per {
 				if n > 2 {
 					c.Violation("push-response-burst:"+sc.proto+":"+t, fmt.Sprintf("%d responses of type %s to one push in %s", n, t, sc.String()), nil)
 				}
+			}
+			continue
+		}
+		if managed[l.Type] {
+			ok, tainted := stepManaged(l.Type, l.Sub, l.Unsub, l.Nonce, l.Err)
+			if !ok {
+				return tainted
 			}
 			continue
 		}
@@ -839,34 +1585,9 @@ func runSequence(c *vh.Ctx, s *server, sc seqCase, conID int) bool {
 	}
 	// (4) record equals the last request, for conformant sequences whose last message per type was not a NACK
 	if !first {
-		for _, con := range ds.Clients() {
-			if con.Proxy() == nil || !strings.Contains(con.Proxy().ID, fmt.Sprintf("app-%d.", conID)) {
-				continue
-			}
-			wrs := con.Proxy().DeepCloneWatchedResources()
-			for _, t := range []string{"EDS", "RDS"} {
-				st := cl.ts[t]
-				if !conformant || lastWasNack[t] || st.unknown {
-					continue
-				}
-				wr, haveWr := wrs[typeURLs[t]]
-				var rec []string
-				if haveWr {
-					rec = wr.ResourceNames.UnsortedList()
-					sort.Strings(rec)
-				}
-				var want []string
-				for n := range st.names {
-					want = append(want, n)
-				}
-				sort.Strings(want)
-				c.Count("record_checks", 1)
-				if strings.Join(rec, ",") != strings.Join(want, ",") {
-					c.Violation("record-mismatch:"+sc.proto+":"+t, fmt.Sprintf("server records %v for %s but the conformant client last asked for %v in %s", shortNames(rec), t, shortNames(want), sc.String()),
-						map[string]any{"sequence": sc.String()})
-				}
-			}
-		}
+		checkRecord(c, ds, cl, sc.proto, sc.String(), conID, func(t string) bool {
+			return conformant && !lastWasNack[t] && !cl.ts[t].unknown
+		})
 	}
 	// (2) no loop: an auto-ACKing conformant client reaches silence within 3 rounds
 	if !first {
@@ -874,7 +1595,7 @@ func runSequence(c *vh.Ctx, s *server, sc seqCase, conID int) bool {
 		for round := 0; round < 4; round++ {
 			before := cl.respLen()
 			sent := 0
-			for _, t := range []string{"CDS", "EDS", "LDS", "RDS", "NDS"} {
+			for _, t := range w.types {
 				st := cl.ts[t]
 				if !st.hasRecord || len(st.nonces) == 0 || st.unknown {
 					continue
@@ -884,7 +1605,13 @@ func runSequence(c *vh.Ctx, s *server, sc seqCase, conID int) bool {
 					ns = append(ns, n)
 				}
 				sort.Strings(ns)
-				if !send(t, ns, st.nonces[len(st.nonces)-1], false) {
+				okSend := false
+				if managed[t] {
+					okSend = sendManaged(t, nil, nil, st.nonces[len(st.nonces)-1], false)
+				} else {
+					okSend = send(t, ns, st.nonces[len(st.nonces)-1], false)
+				}
+				if !okSend {
 					if checkPanic("auto-ack") {
 						return true
 					}
@@ -903,9 +1630,10 @@ func runSequence(c *vh.Ctx, s *server, sc seqCase, conID int) bool {
 			}
 			got := cl.responsesSince(before)
 			for _, r := range got {
-				if ts := cl.ts[shortOf(r.TypeURL)]; ts != nil {
+				if ts := cl.ts[cl.short(r.TypeURL)]; ts != nil {
 					ts.nonces = append(ts.nonces, r.Nonce)
 					ts.forceNext = false
+					ts.reopenedSilent, ts.noRespSinceOpen = false, false
 				}
 			}
 			c.Count("ack_rounds", 1)
@@ -921,8 +1649,12 @@ func runSequence(c *vh.Ctx, s *server, sc seqCase, conID int) bool {
 	if checkPanic("end of sequence") {
 		return true
 	}
+	checkNonces(c, cl, sc.proto, sc.String())
 	c.Count("sequences", 1)
 	c.Count("steps", totalSteps)
+	if sc.world != "" {
+		c.Count("sequences:"+wl, 1)
+	}
 	if sawRespond && sawSilent {
 		c.Nontrivial(vh.Hash(sc.String()))
 	}
@@ -932,16 +1664,149 @@ func runSequence(c *vh.Ctx, s *server, sc seqCase, conID int) bool {
 	return false
 }
 
+var trace = os.Getenv("XDSPROTO_TRACE") != ""
+
+func traceResp(cl *client, got []respRec) string {
+	if len(got) == 0 {
+		return "silence"
+	}
+	var out []string
+	for _, r := range got {
+		out = append(out, fmt.Sprintf("%s{names=%v aliases=%v removed=%v}", cl.short(r.TypeURL), shortNames(r.Names), r.Aliases, r.Removed))
+	}
+	return strings.Join(out, " ")
+}
+
+func pushLabel(k string) string {
+	if k == "" {
+		return "forced"
+	}
+	return k
+}
+
+// checkRecord compares the server's record (DeepCloneWatchedResources) of the client's connection with what
+// the client model last asked for, for the types of the world where the record is meaningful and for which
+// eligible(t) holds.
+func checkRecord(c *vh.Ctx, ds *xds.DiscoveryServer, cl *client, proto, seqText string, conID int, eligible func(t string) bool) {
+	for _, con := range ds.Clients() {
+		if con.Proxy() == nil || !strings.Contains(con.Proxy().ID, fmt.Sprintf("app-%d.", conID)) {
+			continue
+		}
+		wrs := con.Proxy().DeepCloneWatchedResources()
+		if trace {
+			for _, t := range cl.w.types {
+				if wr, ok := wrs[typeURLs[t]]; ok {
+					fmt.Fprintf(os.Stderr, "TRACE record %s: names=%v wildcard=%v eligible=%v\n", t, shortNames(sets.SortedList(wr.ResourceNames)), wr.Wildcard, eligible(t))
+				}
+			}
+		}
+		for _, t := range cl.w.recordTys {
+			st := cl.ts[t]
+			if !eligible(t) {
+				continue
+			}
+			wr, haveWr := wrs[typeURLs[t]]
+			var rec []string
+			if haveWr {
+				rec = wr.ResourceNames.UnsortedList()
+				sort.Strings(rec)
+			}
+			var want []string
+			for n := range st.names {
+				want = append(want, n)
+			}
+			sort.Strings(want)
+			c.Count("record_checks", 1)
+			if cl.w.name != "" {
+				c.Count("record_checks:"+worldLabel(cl.w)+":"+t, 1)
+			}
+			if managed[t] {
+				// the generator adds names in uid / namespace/hostname form by itself: compare the part of the
+				// record the client can talk about, and the kind of subscription
+				if !st.hasRecord {
+					if haveWr {
+						c.Violation("record-mismatch:"+proto+":"+t, fmt.Sprintf("server has a record for %s although the client never opened it in %s", t, seqText), map[string]any{"sequence": seqText})
+					}
+					continue
+				}
+				if !haveWr {
+					c.Violation("record-mismatch:"+proto+":"+t, fmt.Sprintf("server has no record for %s (client mode %s, names %v) in %s", t, st.mode, want, seqText), map[string]any{"sequence": seqText})
+					continue
+				}
+				if wr.Wildcard != (st.mode == "wild") {
+					c.Violation("record-mismatch:"+proto+":"+t+":wildcard-flag", fmt.Sprintf("server records Wildcard=%v for %s but the conformant client opened it in mode %q in %s", wr.Wildcard, t, st.mode, seqText),
+						map[string]any{"sequence": seqText})
+				}
+				if st.mode == "od" {
+					var mine []string
+					extra := 0
+					for _, n := range rec {
+						inUniverse := false
+						for _, a := range aNames {
+							if a == n {
+								inUniverse = true
+							}
+						}
+						if inUniverse {
+							mine = append(mine, n)
+						} else {
+							extra++
+						}
+					}
+					c.Max("managed_record_generator_added_names", extra)
+					if strings.Join(mine, ",") != strings.Join(want, ",") {
+						c.Violation("record-mismatch:"+proto+":"+t, fmt.Sprintf("server records %v (of the names a client can mention) for %s but the conformant client last asked for %v in %s", mine, t, want, seqText),
+							map[string]any{"sequence": seqText})
+					}
+				}
+				continue
+			}
+			if strings.Join(rec, ",") != strings.Join(want, ",") {
+				c.Violation("record-mismatch:"+proto+":"+t+st.causeSuffix(), fmt.Sprintf("server records %v for %s but the conformant client last asked for %v in %s", shortNames(rec), t, shortNames(want), seqText),
+					map[string]any{"sequence": seqText})
+			}
+		}
+	}
+}
+
+// checkNonces: the nonces of the responses of one type on one stream are pairwise distinct (otherwise
+// "current" and "stale" could not be told apart). A nonce shared by two types is only counted.
+func checkNonces(c *vh.Ctx, cl *client, proto, seqText string) {
+	perType := map[string]map[string]bool{}
+	all := map[string]string{}
+	for _, r := range cl.responsesSince(0) {
+		t := cl.short(r.TypeURL)
+		if perType[t] == nil {
+			perType[t] = map[string]bool{}
+		}
+		c.Count("nonces_checked", 1)
+		if r.Nonce == "" {
+			c.Count("responses_without_nonce", 1)
+			continue
+		}
+		if perType[t][r.Nonce] {
+			c.Violation("duplicate-nonce:"+proto+":"+t, fmt.Sprintf("nonce %q used for two responses of type %s on one stream in %s", r.Nonce, t, seqText), map[string]any{"sequence": seqText})
+		}
+		perType[t][r.Nonce] = true
+		if o, ok := all[r.Nonce]; ok && o != t {
+			c.Count("nonce_shared_across_types", 1)
+		}
+		all[r.Nonce] = t
+	}
+}
+
 func errString(cl *client) string {
-	var d <-chan struct{}
 	var e func() error
-	if cl.sotw != nil {
-		d, e = cl.sotw.Done(), cl.sotw.Err
-	} else {
-		d, e = cl.delta.Done(), cl.delta.Err
+	switch {
+	case cl.ownDone != nil:
+		e = func() error { return cl.ownErr }
+	case cl.sotw != nil:
+		e = cl.sotw.Err
+	default:
+		e = cl.delta.Err
 	}
 	select {
-	case <-d:
+	case <-cl.done():
 		return fmt.Sprint(e())
 	case <-time.After(2 * time.Second):
 		return "stream still open"
